@@ -45,6 +45,34 @@ func verifEvent(ev string, svc *service, a, b, c int64, s string) {
 	}
 }
 
+// verifLife emits a life-cycle event of a connection (start, goroutine exits, DISCONNECT seen,
+// phases of stop) with the facts the teardown depends on: a = 1 for the client role, b = will
+// flag of the stored CONNECT at this moment, c = its CleanSession flag (b and c only where the
+// calling goroutine may read them: at the start, in the processor, and after the join in stop).
+func verifLife(ev string, svc *service) {
+	if VerifEventFn == nil {
+		return
+	}
+	var a, b, c int64
+	s := ""
+	if svc != nil {
+		if svc.client {
+			a = 1
+		}
+		flags := ev == "start" || ev == "disc" || ev == "prc.exit" || ev == "stop.joined" || ev == "stop.will"
+		if flags && svc.sess != nil && svc.sess.Cmsg != nil {
+			if svc.sess.Cmsg.WillFlag() {
+				b = 1
+			}
+			if svc.sess.Cmsg.CleanSession() {
+				c = 1
+			}
+			s = string(svc.sess.Cmsg.ClientID())
+		}
+	}
+	verifEvent(ev, svc, a, b, c, s)
+}
+
 // VerifBuffer exports the ring buffer type (its methods are already exported).
 type VerifBuffer = buffer
 
